@@ -20,7 +20,7 @@ ASSUMPTIONS = [
     "distance is judged as computed in float64 (|g - v| rounded); an exactly-nearest element is always accepted",
     "values are finite; grids are sorted ascending",
 ]
-REQUIRED_COUNTERS = {"extra_linspace_grid": 50, "extra_integer_values": 50, "extra_values_2d": 50, "extra_values_fortran_order": 50, "extra_values_transposed_view": 50, "extra_grid_near_float_max": 50, "extra_gaps_above_1e154": 50, "extra_earlier_results_rechecked": 50, "large_arrays": 20, "digitize_same_endpoint_families": 30, "values_checked": 1000, "midpoint_probes": 50, "outside_probes": 50, "digitize_columns": 10}
+REQUIRED_COUNTERS = {"arrays_of_k_times_65536_plus_1_values": 8, "concurrent_snap_rounds": 15, "extra_values_write_protected": 50, "extra_values_zero_stride_broadcast": 50, "extra_values_as_list": 50, "extra_values_empty": 50, "extra_consecutive_integer_grid_around_zero": 50, "extra_errstate_all_raise": 50, "extra_digitize_fortran_order": 50, "extra_digitize_write_protected": 50, "extra_linspace_grid": 50, "extra_integer_values": 50, "extra_values_2d": 50, "extra_values_fortran_order": 50, "extra_values_transposed_view": 50, "extra_grid_near_float_max": 50, "extra_gaps_above_1e154": 50, "extra_earlier_results_rechecked": 50, "large_arrays": 20, "digitize_same_endpoint_families": 30, "values_checked": 1000, "midpoint_probes": 50, "outside_probes": 50, "digitize_columns": 10}
 SHARDS = {"quick": 8, "thorough": 16}
 
 
@@ -173,12 +173,52 @@ def extras(rng, out, get_closest, digitize_data):
     run("values_2d", gi, v3[:k3].reshape(-1, 6))
     run("values_3d", gi, v3[:k3].reshape(2, -1, 3))
     run("values_0d_in_1d", gi, v3[:1])
+    if len(gi) == 0 or k3 == 0:
+        return
     # ... nor whatever their memory layout: Fortran order, a transposed view, permuted axes, a reversed / strided view
     a2 = v3[:k3].reshape(-1, 6)
     run("values_fortran_order", gi, np.asfortranarray(a2))
     run("values_transposed_view", gi, a2.T)
     run("values_permuted_axes_3d", gi, np.transpose(v3[:k3].reshape(2, -1, 3), (2, 0, 1)))
     run("values_reversed_strided_view", gi, a2[::-1, ::2])
+    # ... nor on who owns the memory: write-protected values, one vector repeated with zero strides, plain lists and tuples
+    ro = np.array(v3[:k3], copy=True)
+    ro.setflags(write=False)
+    run("values_write_protected", gi, ro)
+    run("values_zero_stride_broadcast", gi, np.broadcast_to(v3[:6], (5, 6)))
+    run("values_as_list", gi, [float(x) for x in v3[:20]])
+    run("values_as_tuple", gi, tuple(float(x) for x in v3[:20]))
+    run("values_empty", gi, np.zeros(0))
+    run("values_empty_2d", gi, np.zeros((0, 3)))
+    # a grid of consecutive integers around zero with NEGATIVE non-integer values (truncation is not rounding down)
+    n0 = int(rng.integers(-12, -1))
+    gc = np.arange(n0, n0 + int(rng.integers(8, 30)), dtype=float)
+    run("consecutive_integer_grid_around_zero", gc, np.concatenate([rng.uniform(gc[0] - 2, gc[-1] + 2, size=60), gc[:-1] + 0.5, gc - 0.3, gc + 0.3]))
+    # the caller's floating-point error state is its own business: with every numpy warning turned into an exception the snap is the same
+    with np.errstate(all="raise"):
+        run("errstate_all_raise", gi, v3[:k3])
+        run("errstate_all_raise_one_element_grid", gi[:1], v3[:40])
+    # digitize_data on data that is not C-contiguous / not writeable
+    dd = int(rng.integers(2, 5))
+    gl = [np.sort(rng.normal(size=int(rng.integers(2, 40)))) for _ in range(dd)]
+    base_d = rng.normal(size=(int(rng.integers(1, 12)), dd)) * 2
+    frozen = np.array(base_d, copy=True)
+    frozen.setflags(write=False)
+    wide_buf = np.zeros((len(base_d), 2 * dd))
+    wide_buf[:, ::2] = base_d
+    for label, arr in (("digitize_fortran_order", np.asfortranarray(base_d)), ("digitize_transposed_view", np.ascontiguousarray(base_d.T).T),
+                       ("digitize_write_protected", frozen), ("digitize_zero_stride_rows", np.broadcast_to(base_d[0], base_d.shape)), ("digitize_strided_columns", wide_buf[:, ::2])):
+        try:
+            dg = np.asarray(digitize_data(arr, [g_.copy() for g_ in gl]))
+            cnt(f"extra_{label}")
+            if dg.shape != arr.shape:
+                out["violations"].append({"msg": f"{label}: result shape {dg.shape} for data of shape {arr.shape}", "witness": {"data": np.array(arr)}})
+                continue
+            for j in range(dd):
+                for k, why in judge(gl[j], np.array(arr[:, j], dtype=np.float64), np.array(dg[:, j], dtype=np.float64))[:1]:
+                    out["violations"].append({"msg": f"{label} column {j}: {why}", "witness": {"grid": gl[j], "data": np.array(arr)}})
+        except Exception as e:  # noqa: BLE001
+            out["violations"].append({"msg": f"{label} raised {type(e).__name__}: {e}", "witness": {"data": np.array(arr)}})
     # (d) grids at the ends of the float range / with gaps whose squares leave it
     big = np.sort(rng.uniform(-1.7, 1.7, size=int(rng.integers(2, 12)))) * 1e308
     vb = np.concatenate([big, (big[:-1] / 2 + big[1:] / 2), rng.uniform(-1.7, 1.7, size=20) * 1e308, [0.0, 1e300, -1e300]])
@@ -263,6 +303,61 @@ def run_case(desc, ctx):
                 out["violations"].append({"msg": f"get_closest on {len(big)} values: " + why, "witness": {"grid": grid, "n_values": len(big)}})
         except Exception as e:  # noqa: BLE001
             out["violations"].append({"msg": f"get_closest raised on {len(big)} values: {type(e).__name__}: {e}", "witness": {"grid": grid}})
+    # lengths one beyond a multiple of 65536 (a chunked implementation's last, one-element chunk)
+    if desc["i"] % 100 == 7:
+        nbig = int(rng.choice([65537, 131073, 65536, 65538]))
+        bigv = rng.choice(vals, size=nbig)
+        bigv[-1] = vals[int(rng.integers(len(vals)))]
+        try:
+            resb = np.asarray(get_closest(grid.copy(), bigv.copy()))
+            c["arrays_of_k_times_65536_plus_1_values"] = c.get("arrays_of_k_times_65536_plus_1_values", 0) + 1
+            out["evals"] += nbig
+            if resb.shape != bigv.shape:
+                out["violations"].append({"msg": f"get_closest on {nbig} values returned shape {resb.shape}", "witness": {"grid": grid}})
+            else:
+                for a0 in list(range(0, nbig, 8192)):
+                    for k, why in judge(grid, bigv[a0:a0 + 8192], resb[a0:a0 + 8192])[:1]:
+                        out["violations"].append({"msg": f"get_closest on {nbig} values, position {a0 + k}: " + why, "witness": {"grid": grid, "n_values": nbig}})
+                        break
+        except Exception as e:  # noqa: BLE001
+            out["violations"].append({"msg": f"get_closest raised on {nbig} values: {type(e).__name__}: {e}", "witness": {"grid": grid}})
+    # several threads snapping at once (two calibrations driven from a thread pool): each gets the answer for ITS values
+    if desc["i"] % 50 == 9:
+        import sys
+        import threading
+
+        jobs = []
+        for _t in range(4):
+            g_t = make_grid(str(rng.choice(["arange", "dyadic", "random"])), rng)
+            v_t, _ = probes(g_t, rng)
+            jobs.append((g_t, v_t, np.array(get_closest(g_t.copy(), v_t.copy()), copy=True)))
+        wrong = []
+        barrier = threading.Barrier(len(jobs))
+
+        def work(g_t, v_t, want):
+            barrier.wait()
+            for _r in range(40):
+                try:
+                    got_t = get_closest(g_t, v_t)
+                    if not np.array_equal(got_t, want):
+                        wrong.append(f"a snap made while other threads were snapping differs from the same snap made alone ({int(np.sum(got_t != want))} of {len(want)} values)")
+                        return
+                except Exception as e:  # noqa: BLE001
+                    wrong.append(f"a snap made while other threads were snapping raised {type(e).__name__}: {e}")
+                    return
+
+        old_si = sys.getswitchinterval()
+        sys.setswitchinterval(1e-6)
+        try:
+            ths = [threading.Thread(target=work, args=j) for j in jobs]
+            [t.start() for t in ths]
+            [t.join(60) for t in ths]
+        finally:
+            sys.setswitchinterval(old_si)
+        c["concurrent_snap_rounds"] = c.get("concurrent_snap_rounds", 0) + 1
+        out["evals"] += 160
+        for msg in wrong[:1]:
+            out["violations"].append({"msg": msg, "witness": {"grids": [j[0] for j in jobs]}})
     # digitize_data: column j uses grid j
     d = int(rng.integers(1, 7))
     rows = int(rng.integers(0, 51)) if desc["i"] % 16 else int(rng.integers(4097, 9000))
